@@ -373,6 +373,26 @@ package httpgen
 //@   ensures undecodable_is_an_error: !jsonDecodes(data, map[string]json.RawMessage) ==> err != nil
 //@   ensures decoded_once: err == nil ==> count("protojson.Unmarshal") == old(count("protojson.Unmarshal")) + 1
 
+// ---- flatten codec (C04/C05): the encoder removes the wrapper key and writes every key of the child's own JSON object
+// under prefix+key; every other key of protojson's object is passed on unchanged ----
+//@ emitted func (x *FlatP) MarshalJSON() (b []byte, err error)
+//@   modifies *
+//@   at-call protojson.Marshal requires base_is_the_message: x != nil && arg0 == x
+//@   at-call json.Marshal requires child_is_the_field: !isType(arg0, map[string]json.RawMessage) ==> isType(arg0, *Addr) && asType(arg0, *Addr) == x.Home && x.Home != nil
+//@   at-call json.Marshal requires unset_child_changes_nothing: isType(arg0, map[string]json.RawMessage) && x.Home == nil ==> asType(arg0, map[string]json.RawMessage) == jsonDecoded(lastRetAs("protojson.Marshal", []byte), map[string]json.RawMessage)
+//@   at-call json.Marshal requires children_promoted: isType(arg0, map[string]json.RawMessage) && x.Home != nil ==> (forall s string :: spec.promoted(jsonDecoded(result0(json.Marshal(x.Home)), map[string]json.RawMessage), s, "home_") ==> inDom(asType(arg0, map[string]json.RawMessage), s) && asType(arg0, map[string]json.RawMessage)[s] == jsonDecoded(result0(json.Marshal(x.Home)), map[string]json.RawMessage)[trimPrefix(s, "home_")])
+//@   at-call json.Marshal requires rest_untouched: isType(arg0, map[string]json.RawMessage) && x.Home != nil ==> (forall s string :: !spec.promoted(jsonDecoded(result0(json.Marshal(x.Home)), map[string]json.RawMessage), s, "home_") ==> (inDom(asType(arg0, map[string]json.RawMessage), s) <==> s != "home" && inDom(jsonDecoded(lastRetAs("protojson.Marshal", []byte), map[string]json.RawMessage), s)) && (inDom(asType(arg0, map[string]json.RawMessage), s) ==> asType(arg0, map[string]json.RawMessage)[s] == jsonDecoded(lastRetAs("protojson.Marshal", []byte), map[string]json.RawMessage)[s]))
+//@   loop 1 invariant forall s string :: (spec.promotedDone(done, s, "home_") ==> inDom(raw, s) && raw[s] == childRaw[trimPrefix(s, "home_")]) && (!spec.promotedDone(done, s, "home_") ==> (inDom(raw, s) <==> s != "home" && inDom(jsonDecoded(lastRetAs("protojson.Marshal", []byte), map[string]json.RawMessage), s)) && (inDom(raw, s) ==> raw[s] == jsonDecoded(lastRetAs("protojson.Marshal", []byte), map[string]json.RawMessage)[s]))
+
+//@ emitted func (x *FlatB) MarshalJSON() (b []byte, err error)
+//@   modifies *
+//@   at-call protojson.Marshal requires base_is_the_message: x != nil && arg0 == x
+//@   at-call json.Marshal requires child_is_the_field: !isType(arg0, map[string]json.RawMessage) ==> isType(arg0, *Addr) && asType(arg0, *Addr) == x.Addr && x.Addr != nil
+//@   at-call json.Marshal requires unset_child_changes_nothing: isType(arg0, map[string]json.RawMessage) && x.Addr == nil ==> asType(arg0, map[string]json.RawMessage) == jsonDecoded(lastRetAs("protojson.Marshal", []byte), map[string]json.RawMessage)
+//@   at-call json.Marshal requires children_promoted: isType(arg0, map[string]json.RawMessage) && x.Addr != nil ==> (forall s string :: spec.promoted(jsonDecoded(result0(json.Marshal(x.Addr)), map[string]json.RawMessage), s, "") ==> inDom(asType(arg0, map[string]json.RawMessage), s) && asType(arg0, map[string]json.RawMessage)[s] == jsonDecoded(result0(json.Marshal(x.Addr)), map[string]json.RawMessage)[trimPrefix(s, "")])
+//@   at-call json.Marshal requires rest_untouched: isType(arg0, map[string]json.RawMessage) && x.Addr != nil ==> (forall s string :: !spec.promoted(jsonDecoded(result0(json.Marshal(x.Addr)), map[string]json.RawMessage), s, "") ==> (inDom(asType(arg0, map[string]json.RawMessage), s) <==> s != "addr" && inDom(jsonDecoded(lastRetAs("protojson.Marshal", []byte), map[string]json.RawMessage), s)) && (inDom(asType(arg0, map[string]json.RawMessage), s) ==> asType(arg0, map[string]json.RawMessage)[s] == jsonDecoded(lastRetAs("protojson.Marshal", []byte), map[string]json.RawMessage)[s]))
+//@   loop 1 invariant forall s string :: (spec.promotedDone(done, s, "") ==> inDom(raw, s) && raw[s] == childRaw[trimPrefix(s, "")]) && (!spec.promotedDone(done, s, "") ==> (inDom(raw, s) <==> s != "addr" && inDom(jsonDecoded(lastRetAs("protojson.Marshal", []byte), map[string]json.RawMessage), s)) && (inDom(raw, s) ==> raw[s] == jsonDecoded(lastRetAs("protojson.Marshal", []byte), map[string]json.RawMessage)[s]))
+
 // ---- root-unwrap list codec of one message of the extraction schema (C05): the body is the JSON array of the
 // elements, each in its own proto3 JSON form (protojson, since the element type has no codec of its own) ----
 
